@@ -19,8 +19,8 @@ use vmon::srv::{Ctx, SrvCfg, C};
 
 pub const RULE: &str = "cases are (a) one generated shutdown scenario and (b) every request \
 (uid) in it.  Scenario = task mode x workers 1/2/4/16 x CPU hogs x close() timing (after all \
-populations settled / racing with them) x populations present: S started gated handlers whose \
-client stays, I idle connections that never sent a byte, U idle keep-alive connections after one \
+populations settled / racing with them) x populations present (handlers either keep their RequestContext or drop it before waiting): \
+S started gated handlers whose client stays, I idle connections that never sent a byte, U idle keep-alive connections after one \
 exchange, H half-sent requests whose client finishes or leaves later, L started handlers whose \
 client left before close, A connections arriving after the close call, P a panicking handler x \
 extra wait_for_shutdown() waiters awaited before the call / after the call / after the return. \
@@ -60,6 +60,8 @@ struct Stay {
     early_us: u64,
     delay_us: u64,
     slow_reader: bool,
+    /// handler variant that drops its RequestContext before it waits
+    drop_rqctx: bool,
 }
 
 #[derive(Clone, Debug)]
@@ -77,6 +79,9 @@ struct Left {
     uid: u64,
     style: Style,
     stepping: bool,
+    /// handler variant that drops its RequestContext before it waits (then
+    /// nothing but dropshot's own bookkeeping makes shutdown wait for it)
+    drop_rqctx: bool,
 }
 
 #[derive(Clone, Debug)]
@@ -170,6 +175,7 @@ fn gen_scenario(rng: &mut Rng) -> Sc {
                 early_us: rng.below(5000),
                 delay_us: rng.below(3000),
                 slow_reader: path == "/big" && rng.bool(),
+                drop_rqctx: rng.bool(),
             }
         })
         .collect();
@@ -188,6 +194,7 @@ fn gen_scenario(rng: &mut Rng) -> Sc {
             uid: next_uid(),
             style: if rng.bool() { Style::Close } else { Style::Rst },
             stepping: rng.chance(1, 4),
+            drop_rqctx: rng.chance(2, 3),
         })
         .collect();
     let late = (0..*rng.pick(&[0usize, 0, 1, 2, 4]))
@@ -304,7 +311,9 @@ fn stay_client(p: &Stay, env: &Env) -> Option<Outcome> {
         env.open_gate(p.uid);
     }
     let uid = p.uid;
-    let bytes = mk_req(env.ctx.instance, p.path, uid, p.size, p.k, p.step_us).encode();
+    let bytes =
+        drop_rqctx(mk_req(env.ctx.instance, p.path, uid, p.size, p.k, p.step_us), p.drop_rqctx)
+            .encode();
     env.log.push("C_SEND", uid, bytes.len() as i64, "");
     if conn.send(&bytes).is_err() {
         return None;
@@ -367,7 +376,7 @@ fn idle_client(used: bool, env: &Env) {
 fn half_client(p: &Half, env: &Env) -> Option<Outcome> {
     let mut ready = Ready(env.ready, false);
     let mut conn = env.connect("half")?;
-    let bytes = mk_req(env.ctx.instance, "/gated", p.uid, 500, 0, 0).encode();
+    let bytes = drop_rqctx(mk_req(env.ctx.instance, "/gated", p.uid, 500, 0, 0), p.uid % 2 == 0).encode();
     let cut = 1 + (p.cut_permille as usize * (bytes.len() - 2)) / 1000;
     env.log.push("C_SEND", p.uid, cut as i64, "partial");
     if conn.send(&bytes[..cut]).is_err() {
@@ -406,7 +415,7 @@ fn left_client(p: &Left, env: &Env) {
     let Some(mut conn) = env.connect("left") else { return };
     let uid = p.uid;
     let path = if p.stepping { "/stepping" } else { "/gated" };
-    let bytes = mk_req(env.ctx.instance, path, uid, 64, 2, 700).encode();
+    let bytes = drop_rqctx(mk_req(env.ctx.instance, path, uid, 64, 2, 700), p.drop_rqctx).encode();
     env.log.push("C_SEND", uid, bytes.len() as i64, "");
     if conn.send(&bytes).is_err() {
         return;
@@ -433,7 +442,7 @@ fn late_client(p: &Late, env: &Env) {
         }
     };
     env.open_gate(p.uid);
-    let bytes = mk_req(env.ctx.instance, "/gated", p.uid, 64, 0, 0).encode();
+    let bytes = drop_rqctx(mk_req(env.ctx.instance, "/gated", p.uid, 64, 0, 0), p.uid % 2 == 0).encode();
     env.log.push("C_SEND", p.uid, bytes.len() as i64, "late");
     // unjudged population (only counted): a shorter bound is enough
     let o = if conn.send(&bytes).is_ok() {
@@ -753,7 +762,7 @@ pub fn run_case(out: &mut Out, seed: u64, shard: u64, case: u64, record: bool) -
 
     let mut all: Vec<(u64, &'static str, Option<&Outcome>, bool)> = vec![]; // uid, population, outcome, client stays
     for (p, o) in sc.stay.iter().zip(stay_out.iter()) {
-        all.push((p.uid, "stay", o.as_ref(), true));
+        all.push((p.uid, if p.drop_rqctx { "stay~rqctx-dropped-early" } else { "stay" }, o.as_ref(), true));
         if let Some(w) = p.warm {
             all.push((w, "warmup", None, false));
         }
@@ -762,7 +771,7 @@ pub fn run_case(out: &mut Out, seed: u64, shard: u64, case: u64, record: bool) -
         all.push((p.uid, if p.finish { "half-finish" } else { "half-leave" }, None, false));
     }
     for p in &sc.left {
-        all.push((p.uid, "left", None, false));
+        all.push((p.uid, if p.drop_rqctx { "left~rqctx-dropped-early" } else { "left" }, None, false));
     }
     for p in &sc.late {
         all.push((p.uid, "late", None, false));
